@@ -100,6 +100,7 @@ type readerKey struct {
 	key   string
 	types map[string]bool
 	vars  map[string]bool // local variables influenced
+	objs  map[types.Object]bool
 }
 
 // readerKeys: every const-string index into a Dict in type1.Read with the asserted types.
@@ -116,6 +117,7 @@ func (c *Ctx) readerKeys() map[string]*readerKey {
 		}
 	}
 	var visit func(n ast.Node, lhs []string)
+	var lhsObjs []types.Object // the variables of the assignment being visited, by object
 	record := func(ix *ast.IndexExpr, typ string, lhs []string) {
 		k, ok := constStrOf(info, ix.Index)
 		if !ok {
@@ -123,8 +125,11 @@ func (c *Ctx) readerKeys() map[string]*readerKey {
 		}
 		rk := out[k]
 		if rk == nil {
-			rk = &readerKey{dict: types.ExprString(ix.X), key: k, types: map[string]bool{}, vars: map[string]bool{}}
+			rk = &readerKey{dict: types.ExprString(ix.X), key: k, types: map[string]bool{}, vars: map[string]bool{}, objs: map[types.Object]bool{}}
 			out[k] = rk
+		}
+		for _, o := range lhsObjs {
+			rk.objs[o] = true
 		}
 		if typ != "" {
 			rk.types[typ] = true
@@ -140,12 +145,21 @@ func (c *Ctx) readerKeys() map[string]*readerKey {
 			switch m := m.(type) {
 			case *ast.AssignStmt:
 				var names []string
+				var objs []types.Object
 				for _, l := range m.Lhs {
 					names = append(names, types.ExprString(l))
+					if id, ok := l.(*ast.Ident); ok && id.Name != "_" && id.Name != "ok" {
+						if o := info.ObjectOf(id); o != nil {
+							objs = append(objs, o)
+						}
+					}
 				}
+				saved := lhsObjs
+				lhsObjs = objs
 				for _, r := range m.Rhs {
 					visit(r, names)
 				}
+				lhsObjs = saved
 				return false
 			case *ast.TypeAssertExpr:
 				if ix, ok := m.X.(*ast.IndexExpr); ok && m.Type != nil {
@@ -243,19 +257,9 @@ func runRoundTrip(c *Ctx, closure bool) {
 
 		// ---------------- date layout
 		{
-			t := c.fontTemplate()
-			layout := ""
-			for _, it := range t.allItems() {
-				if an, ok := it.node.(*parse.ActionNode); ok && strings.Contains(it.action, ".Format") {
-					for _, cmd := range an.Pipe.Cmds {
-						for _, a := range cmd.Args {
-							if s, ok := a.(*parse.StringNode); ok {
-								layout = s.Text
-							}
-						}
-					}
-				}
-			}
+			// the action that writes the date: text in front of it and the layout it uses
+			// (written in the template or handed to time.Time.Format by a template function)
+			dateBefore, layout, _ := c.dateAction()
 			var layouts []string
 			p := c.pkg("type1")
 			for _, f := range p.Syntax {
@@ -286,8 +290,7 @@ func runRoundTrip(c *Ctx, closure bool) {
 			hasSeconds := strings.Contains(layout, "05") && strings.Contains(layout, "-0700")
 			c.check(found && hasSeconds, "RT-DATE", "type1 template / type1.dateFormats", "the creation date is written in a layout the reader accepts, to the second, with its zone", token.NoPos, layout, fmt.Sprintf("the template formats the creation date as %q, which is not among the reader's layouts %q (or lacks seconds/zone)", layout, layouts))
 			// written on a %%CreationDate: line, read from DSC key CreationDate
-			flat := t.flatText()
-			okKey := strings.Contains(flat, "%%CreationDate: ⟦.CreationDate.Format")
+			okKey := strings.HasSuffix(dateBefore, "\n%%CreationDate: ") || dateBefore == "%%CreationDate: "
 			// the reader (or a helper of it) compares a comment key with "CreationDate"
 			readsKey := false
 			for _, d := range c.declsFrom("type1", c.funcDecl("type1", "", "Read"), 2) {
@@ -341,27 +344,21 @@ func runRoundTrip(c *Ctx, closure bool) {
 
 // fieldCorrespondence: the font field a key is written from is the one it is read into.
 func (c *Ctx) fieldCorrespondence(info *types.Info, tk []tmplKey, rk map[string]*readerKey) {
-	// template field → source expression in makeTemplateData
-	mk := c.funcDecl("type1", "Font", "makeTemplateData")
+	// template field → the font field it is filled from: the writer is evaluated on the SSA form
+	// up to its template executions (font fields are symbols `f.<path>`), so it does not matter
+	// where and how the template data is put together
 	src := map[string]string{}
-	ast.Inspect(mk.Body, func(n ast.Node) bool {
-		switch n := n.(type) {
-		case *ast.KeyValueExpr:
-			if id, ok := n.Key.(*ast.Ident); ok {
-				src[id.Name] = types.ExprString(n.Value)
-			}
-		case *ast.AssignStmt:
-			if len(n.Lhs) == 1 {
-				if sel, ok := n.Lhs[0].(*ast.SelectorExpr); ok && types.ExprString(sel.X) == "info" {
-					src[sel.Sel.Name] = types.ExprString(n.Rhs[0])
-				}
+	if execs, why := c.evalWriterData(c.method("type1", "Font", "Write"), c.constInt("type1", "FormatPFA"), false); why == "" && len(execs) > 0 {
+		for name, v := range execs[0].fields {
+			src[name] = v.String()
+			if el := execs[0].elems[name]; len(el) == 1 {
+				src[name] = el[0].String()
 			}
 		}
-		return true
-	})
+	}
 	// reader: struct literal fields ← expressions mentioning variables
 	rd := c.funcDecl("type1", "", "Read")
-	litField := map[string]string{} // variable → struct.field
+	litField := map[types.Object]string{} // variable → struct.field
 	ast.Inspect(rd.Body, func(n ast.Node) bool {
 		cl, ok := n.(*ast.CompositeLit)
 		if !ok {
@@ -374,26 +371,55 @@ func (c *Ctx) fieldCorrespondence(info *types.Info, tk []tmplKey, rk map[string]
 		for _, e := range cl.Elts {
 			if kv, ok := e.(*ast.KeyValueExpr); ok {
 				for _, id := range identsOf(kv.Value) {
-					if _, isVar := info.ObjectOf(id).(*types.Var); isVar {
-						litField[id.Name] = tn + "." + types.ExprString(kv.Key)
+					if o, isVar := info.ObjectOf(id).(*types.Var); isVar {
+						litField[o] = tn + "." + types.ExprString(kv.Key)
 					}
 				}
 			}
 		}
 		return true
 	})
-	// variables derived from key variables (x := f(y))
-	derive := map[string][]string{}
+	// variables derived from key variables (x := f(y); x[i] = f(y); for _, x := range y), by object
+	derive := map[types.Object][]types.Object{}
+	isFlag := func(id *ast.Ident) bool { return id.Name == "_" || id.Name == "ok" }
 	ast.Inspect(rd.Body, func(n ast.Node) bool {
 		if as, ok := n.(*ast.AssignStmt); ok && len(as.Lhs) >= 1 {
 			for _, r := range as.Rhs {
 				for _, id := range identsOf(r) {
-					if _, isVar := info.ObjectOf(id).(*types.Var); isVar {
+					if src, isVar := info.ObjectOf(id).(*types.Var); isVar {
 						for _, l := range as.Lhs {
-							if lid, ok := l.(*ast.Ident); ok && lid.Name != "_" && lid.Name != "ok" {
-								derive[id.Name] = append(derive[id.Name], lid.Name)
+							// an element assignment `x[i] = …` fills x
+							if ix, ok := l.(*ast.IndexExpr); ok {
+								l = ix.X
+							}
+							if lid, ok := l.(*ast.Ident); ok && !isFlag(lid) && info.ObjectOf(lid) != nil {
+								derive[src] = append(derive[src], info.ObjectOf(lid))
 							}
 						}
+					}
+				}
+			}
+		}
+		// `switch v := x.(type)`: the variable of every clause is x
+		if ts, ok := n.(*ast.TypeSwitchStmt); ok {
+			if as, ok := ts.Assign.(*ast.AssignStmt); ok && len(as.Rhs) == 1 {
+				for _, id := range identsOf(as.Rhs[0]) {
+					if src, isVar := info.ObjectOf(id).(*types.Var); isVar {
+						for _, cl := range ts.Body.List {
+							if o := info.Implicits[cl]; o != nil {
+								derive[src] = append(derive[src], o)
+							}
+						}
+					}
+				}
+			}
+		}
+		// the elements a loop takes out of x derive from x
+		if rs, ok := n.(*ast.RangeStmt); ok && rs.Value != nil {
+			for _, id := range identsOf(rs.X) {
+				if src, isVar := info.ObjectOf(id).(*types.Var); isVar {
+					if lid, ok := rs.Value.(*ast.Ident); ok && !isFlag(lid) && info.ObjectOf(lid) != nil {
+						derive[src] = append(derive[src], info.ObjectOf(lid))
 					}
 				}
 			}
@@ -401,12 +427,12 @@ func (c *Ctx) fieldCorrespondence(info *types.Info, tk []tmplKey, rk map[string]
 		return true
 	})
 	fieldOfKey := func(r *readerKey) string {
-		seen := map[string]bool{}
-		var q []string
-		for v := range r.vars {
-			q = append(q, v)
+		seen := map[types.Object]bool{}
+		var q []types.Object
+		for o := range r.objs {
+			q = append(q, o)
 		}
-		sort.Strings(q)
+		sort.Slice(q, func(i, j int) bool { return q[i].Pos() < q[j].Pos() })
 		for len(q) > 0 {
 			v := q[0]
 			q = q[1:]
@@ -447,7 +473,7 @@ func (c *Ctx) fieldCorrespondence(info *types.Info, tk []tmplKey, rk map[string]
 		c.check(g == w, "RT-FIELDS", "type1.makeTemplateData / type1.Read", fmt.Sprintf("/%s: written from %s, read into %s", k.key, w, g), token.NoPos, "same font field on both sides",
 			fmt.Sprintf("/%s is written from %s but the reader stores it into %s", k.key, w, g))
 	}
-	c.floor("RT-FIELDS", 14)
+	c.floor("RT-FIELDS", 18)
 }
 
 func (c *Ctx) defaultElision(info *types.Info) {
